@@ -82,8 +82,20 @@ structure Row (α : Type) where
 def rowLe {α : Type} (a b : Row α) : Bool :=
   decide (a.grp < b.grp) || (a.grp == b.grp && !decide (b.name < a.name))
 
+/-- insertion of `a` into a list in key order, in front of the first element that is not smaller
+    (so `a`, which came earlier, stays ahead of its equals: the sort is stable) -/
+def insertRow {β : Type} (le : β → β → Bool) (a : β) : List β → List β
+  | [] => [a]
+  | b :: bs => if le a b then a :: b :: bs else b :: insertRow le a bs
+
+/-- stable sort (insertion from the right: linear time on input that is already in order, which the
+    generation order is unless a name outgrows its 7 digits) -/
+def sortRows {β : Type} (le : β → β → Bool) : List β → List β
+  | [] => []
+  | a :: l => insertRow le a (sortRows le l)
+
 /-- `progeny.group_taxa()`: `sort_taxa()` with keys `(taxa, taxa_grp)` (numpy.lexsort is stable) -/
-def groupTaxa {α : Type} (rows : List (Row α)) : List (Row α) := Np.stableSort rowLe rows
+def groupTaxa {α : Type} (rows : List (Row α)) : List (Row α) := sortRows rowLe rows
 
 structure Out (α : Type) where
   rows : List (Row α)
@@ -219,6 +231,57 @@ def mate (P : Proto) (pop : Pop α) (xc : List (List Nat)) (nmating nprogeny : C
 
 end protocols
 
+/-! ### the public call: numpy index rule for `xconfig`, marker metadata of the result -/
+
+/-- numpy's rule for an index on an axis of length `n`: `-n ≤ s < 0` means `s + n`; every other value
+    outside `[0, n)` is out of bounds (returned as `n`, which no lookup accepts, so that the
+    IndexError is raised exactly when the index is used) -/
+def wrapIdx (n : Nat) (s : Int) : Nat :=
+  if 0 ≤ s then s.toNat else if -(n : Int) ≤ s then (s + n).toNat else n
+
+/-- `xconfig` as the code uses it: every entry only ever indexes the taxa axis of `pgmat.mat` -/
+def wrapConfig (n : Nat) (xc : List (List Int)) : List (List Nat) := xc.map (fun r => r.map (wrapIdx n))
+
+/-- marker metadata of a `DensePhasedGenotypeMatrix`: the nine `vrnt_*` arrays the constructor takes
+    and the four chromosome-group arrays; `μ` is the (opaque) type of one array -/
+structure VMeta (μ : Type) where
+  chrgrp : Option μ
+  phypos : Option μ
+  name : Option μ
+  genpos : Option μ
+  xoprob : Option μ
+  hapgrp : Option μ
+  hapalt : Option μ
+  hapref : Option μ
+  mask : Option μ
+  chrgrp_name : Option μ
+  chrgrp_stix : Option μ
+  chrgrp_spix : Option μ
+  chrgrp_len : Option μ
+  deriving Repr
+
+/-- marker metadata of the progeny matrix as each of the seven `mate()` builds it (the code is the
+    same in all seven): the constructor keywords `vrnt_chrgrp = pgmat.vrnt_chrgrp, …, vrnt_hapalt =
+    pgmat.vrnt_hapalt, vrnt_hapref = pgmat.vrnt_hapref, vrnt_mask = pgmat.vrnt_mask` (the constructor
+    leaves the group arrays `None`), then the four assignments `progeny.vrnt_chrgrp_name =
+    pgmat.vrnt_chrgrp_name` …; `group_taxa()` does not touch marker metadata -/
+def progenyMeta {μ : Type} (_ : Proto) (pg : VMeta μ) : VMeta μ :=
+  let built : VMeta μ :=
+    { chrgrp := pg.chrgrp, phypos := pg.phypos, name := pg.name, genpos := pg.genpos,
+      xoprob := pg.xoprob, hapgrp := pg.hapgrp, hapalt := pg.hapalt, hapref := pg.hapref,
+      mask := pg.mask, chrgrp_name := none, chrgrp_stix := none, chrgrp_spix := none, chrgrp_len := none }
+  { built with chrgrp_name := pg.chrgrp_name, chrgrp_stix := pg.chrgrp_stix,
+               chrgrp_spix := pg.chrgrp_spix, chrgrp_len := pg.chrgrp_len }
+
+/-- `<Protocol>.mate(pgmat, xconfig, nmating, nprogeny, nself)` with an integer `xconfig` (negative
+    entries count from the end, as numpy indexes) and the marker metadata of `pgmat` -/
+def mateFull {α ρ μ : Type} [LT ρ] [DecidableLT ρ] (P : Proto) (pop : Pop α) (pg : VMeta μ)
+    (xc : List (List Int)) (nmating nprogeny : Cnt) (nself : Nat) (xo : List ρ) (pc fc : Nat)
+    (draws : List (DrawMat ρ)) : Except Err (Out α × VMeta μ) :=
+  match mate P pop (wrapConfig pop.length xc) nmating nprogeny nself xo pc fc draws with
+  | .error e => .error e
+  | .ok o => .ok (o, progenyMeta P pg)
+
 /-! ### the decidable Spec evaluated on implementation outputs -/
 
 section spec
@@ -274,43 +337,6 @@ def sources (P : Proto) (nself : Nat) (pop : Pop α) (cross : List Nat) : List (
       if nself = 0 then (h 2 ++ h 3, h 0 ++ h 1)
       else ((h 2 ++ h 3) ++ (h 0 ++ h 1), (h 2 ++ h 3) ++ (h 0 ++ h 1))
   | .fourWayDH => ((h 2 ++ h 3) ++ (h 0 ++ h 1), (h 2 ++ h 3) ++ (h 0 ++ h 1))
-
-/-- Spec of one output row: its family label names a cross of the configuration and both chromosome
-    copies are mosaics of the haplotypes that cross assigns to their side; DH ⇒ the copies agree -/
-def rowOK [BEq α] [LT ρ] [DecidableLT ρ] [OfNat ρ 0] (P : Proto) (nself : Nat) (pop : Pop α)
-    (xc : List (List Nat)) (xo : List ρ) (fc : Nat) (r : Row α) : Bool :=
-  decide (fc ≤ r.grp) &&
-  match xc[r.grp - fc]? with
-  | none => false
-  | some cross =>
-    let s := sources P nself pop cross
-    mosaicCheck s.1 xo r.ind.1 && mosaicCheck s.2 xo r.ind.2 && (!P.isDH || r.ind.1 == r.ind.2)
-
-/-- names: in generation order when no name outgrows the 7-digit field; in general the generated
-    names, each in the family it was generated for -/
-def namesOK (pre : List Nat) (pc cnt : Nat) (genGrp : List Nat) (rows : List (Row α)) : Bool :=
-  let expect := (Np.arange pc cnt).map (name pre)
-  if pc + cnt ≤ 10 ^ 7 then rows.map Row.name == expect
-  else
-    rows.all (fun r => (List.zip expect genGrp).contains (r.name, r.grp)) &&
-    (rows.map Row.name).isPerm expect
-
-/-- the Spec of C01 on one `mate()` call: inputs, and the outputs of the implementation -/
-def specMate [BEq α] [LT ρ] [DecidableLT ρ] [OfNat ρ 0] (P : Proto) (pop : Pop α) (xc : List (List Nat))
-    (nmating nprogeny : Cnt) (nself : Nat) (xo : List ρ) (pc fc : Nat) (out : Out α) : Bool × String :=
-  match nmating.expand xc.length, nprogeny.expand xc.length with
-  | .ok nm, .ok np =>
-    let per := List.zipWith (· * ·) nm np
-    let cnt := Np.sum per
-    let genGrp := Np.repeatEach per (Np.arange fc xc.length)
-    let cCount := out.rows.length == cnt
-    let cGrp := out.rows.map Row.grp == genGrp
-    let cNames := namesOK P.pre pc cnt genGrp out.rows
-    let cCtr := out.pc == pc + cnt && out.fc == fc + xc.length
-    let cRows := out.rows.all (rowOK P nself pop xc xo fc)
-    (cCount && cGrp && cNames && cCtr && cRows,
-     s!"count={cCount} family={cGrp} names={cNames} counters={cCtr} mosaic={cRows}")
-  | _, _ => (false, "count arrays rejected")
 
 end spec
 
